@@ -132,6 +132,37 @@ REJECTIONS = [
 ]
 
 
+BLOCK_COPY = r"copy_within$|ptr::copy$|intrinsics::copy$|copy_nonoverlapping$|copy_from_slice$|copy_from_nonoverlapping$|copy_to_nonoverlapping$|Writer::copy_chunked_within$|Writer::copy_chunk_unchecked$"
+
+
+def overlap_safe(ck, prog, rule, fn_rx):
+    """An LZ77 match may overlap the bytes it produces (distance < length replicates the pattern).  In the match-copy
+    routines a block copy (memmove/memcpy semantics: it reads the source as it was before the call) is therefore only
+    allowed on paths where length <= distance; the overlapping case has to go byte by byte (or by fill for distance 1)."""
+    n = 0
+    for fn in sorted(prog.fns.values(), key=lambda f: f.path):
+        if not re.search(fn_rx, fn.path) or fn.is_promoted:
+            continue
+        n += 1
+        ck.use_fn(fn)
+        bad = []
+        for c in fn.live_calls(BLOCK_COPY):
+            ok = False
+            for a in fn.dominating_atoms(c.bb):
+                s_ = sig.sig(a, fn)
+                # length <= offset_from_end   (the negation of `length > offset_from_end`)
+                if s_.rel in ("Le", "Lt") and "length" in s_.lo_names and "offset_from_end" in s_.hi_names:
+                    ok = True
+            if not ok:
+                bad.append(c)
+        short = fn.path.replace(Z, "")
+        ck.decide(not bad, rule, short, "block copies only under length <= distance",
+                  "%s calls %s without a dominating `length <= offset_from_end` test: for an overlapping match (distance < length) a "
+                  "block copy reads the bytes as they were before the call instead of replicating the pattern"
+                  % (short, ", ".join(sorted({c.callee.split("::")[-1] for c in bad}))), where(fn, bad[0].line if bad else None))
+    return n
+
+
 def site_sigs(fn, bb):
     es, ds = sig.site_guards(fn, bb)
     return es + ds
